@@ -3,6 +3,7 @@ import NmVerif.Basic
 import NmVerif.NDA
 import NmVerif.Arr
 import NmVerif.Eval.Eval
+import NmVerif.Eval.Cast
 /-
   Driver handler of C10: answers with the MODEL of the evaluator (NmVerif.Eval) only.
 
@@ -17,6 +18,11 @@ import NmVerif.Eval.Eval
         ok shape=<out shape> buf=<buffer of the output afterwards>   (+ ` events=3:1` on the silent return)
     eval_maybe has=0|1 vshape=… vdata=…
         maybe lifting of `detail::eval`: `nothing` for an empty optional, else as eval_fresh
+    eval_cast vt=<et> vshape=… vdata=<decimal numbers> [to=<et>]
+        mixed-element-type requests (harness op mixb / mixu): the library-allocated result of element type `to`
+        (default: `vt`, the view's own element type — what both result-type resolvers take) filled by the converting
+        copy loop `evalFreshCast`:
+        ok vt=… shape=… data=<view elements> et=<to> ed=same|<shape:data of the result> ft=<vt> fd=same
 -/
 namespace NmVerif.Driver.C10
 open NmVerif NmVerif.Proto NmVerif.Eval
@@ -46,11 +52,36 @@ def show2 (a : Args) (r c : NDA String) : String :=
 
 def fresh (a : Args) (v : Arr String) : String := show2 a (evalFresh false v) (evalFresh true v)
 
+/-- the implicit C++ conversion of a value (printed as a decimal number) to element type `to`: floating types hold the
+    generated values exactly; integer types truncate toward zero; bool is `!= 0` -/
+def castTok (to : String) (t : String) : String :=
+  if to == "f32" || to == "f64" then t
+  else
+    let ip := (t.splitOn ".").headD t
+    if to == "b" then (if t == "0" || t == "-0" then "0" else "1")
+    else if ip == "-0" || ip == "-" || ip == "" then "0" else ip
+
+def castReq (a : Args) : Option String := do
+  let vt ← a.get? "vt"
+  let s ← a.nats "vshape"
+  let d ← (a.get? "vdata").map toks
+  if d.length != prod s then none
+  let v := viewOf s d
+  let to := (a.get? "to").getD vt
+  let r : NDA String := evalFreshCast (castTok to) false v
+  let ed := if r.shape == s && logical r == d then "same" else s!"{fmtNats r.shape}:{fmtToks (logical r)}"
+  -- old=0: bare eval(view) of the pairing is a compile error (std::vector as left operand), only array::fn is answered
+  if a.get? "old" == some "0" then
+    pure s!"ok vt={vt} shape={fmtNats s} data={fmtToks d} et=n/a ed=n/a ft={vt} fd=same"
+  else
+  pure s!"ok vt={vt} shape={fmtNats s} data={fmtToks d} et={to} ed={ed} ft={vt} fd=same"
+
 def handle : Handler := fun op a =>
   match op with
   | "eval_fresh" => orBad do
       let v ← parseView a
       pure (fresh a v)
+  | "eval_cast" => orBad (castReq a)
   | "eval_maybe" => orBad do
       let h ← a.nat "has"
       -- `detail::eval` on nmtools_maybe<view>: Nothing stays Nothing, a value is evaluated
